@@ -104,6 +104,9 @@ def materialize(env, spec, d):
             model['sources'][fs['name'] + '.zst'] = z; model['orig'][fs['name']] = raw
             ok, data, msg = library_verdict(env, zp, model['dictpath'])
             model['expect'][fs['name'] + '.zst'] = data if ok else None
+            # documented pass-through: 'zstd -d -f -c' copies bytes of an unrecognised format to stdout as they are, so a valid frame
+            # followed by trailing garbage is accepted (frame decoded, garbage copied) although the library rejects the file as a whole
+            if v == 'garbage' and spec['op'] == 'd' and '-f' in spec['flags'] and spec.get('stdout'): model['expect'][fs['name'] + '.zst'] = raw + b'\x11\x22\x33trailing-garbage'
         if spec.get('preexisting') and not spec.get('stdout'):   # with -c the 'destination' is the caller's stdout redirection, not zstd's business
             dp = dest_of(spec, fs)
             if dp and dp not in model['pre']:
@@ -192,9 +195,6 @@ def check_end(env, spec, model, d, res):
         refused = dp in model['pre'] and '-f' not in spec['flags'] and not spec.get('stdout')
         if spec['op'] == 'c': ok_lib = True
         else: ok_lib = model['expect'].get(sname) is not None
-        # documented pass-through: 'zstd -d -f -c' copies bytes of an unrecognised format to stdout as they are, so a valid frame
-        # followed by trailing garbage is accepted (frame decoded, garbage copied) although the library rejects the file as a whole
-        if spec['op'] == 'd' and '-f' in spec['flags'] and spec.get('stdout') and fs.get('variant') == 'garbage': ok_lib = True
         accept = ok_lib and not refused
         accept_all &= accept
         if spec['op'] == 't' or dp is None: continue
